@@ -474,8 +474,13 @@ func ClassOf(r rune) string {
 		return "dig"
 	case r >= 'a' && r <= 'z', r >= 'A' && r <= 'Z':
 		return "let"
-	case r != utf8.RuneError && r >= 0x80 && (unicode.IsLetter(r) || unicode.IsDigit(r)):
+	case r == utf8.RuneError || r < 0x80:
+	case unicode.IsDigit(r):
+		return "udig"
+	case unicode.IsLetter(r):
 		return "ulet"
+	case unicode.IsSpace(r):
+		return "usp"
 	}
 	return "oth"
 }
@@ -537,10 +542,43 @@ func ClassChar(c string) string {
 		return "a"
 	case "ulet":
 		return "é"
+	case "udig":
+		return "٣"
+	case "usp":
+		return "\u2003"
 	case "oth":
 		return "#"
 	}
 	return ""
+}
+
+// ClassChars gives several representatives of a class: for the non-ASCII
+// classes characters of 2, 3 and 4 bytes and of different sub-categories
+// (widths and case matter to code that mixes byte and rune arithmetic).
+func ClassChars(c string) []string {
+	switch c {
+	case "ulet":
+		return []string{"é", "Ω", "ǅ", "中", "𝒜", "ª"}
+	case "udig":
+		return []string{"٣", "१", "１", "𝟙"}
+	case "usp":
+		return []string{"\u2003", "\u00a0", "\u3000", "\u2028", "\u0085"}
+	case "oth":
+		return []string{"#", "~", "\x00", "\xff", "\ufeff", "²", "€"}
+	case "sp":
+		return []string{" ", "\t"}
+	case "nl":
+		return []string{"\n", "\r"}
+	case "let":
+		return []string{"a", "Z", "_", "e", "x"}
+	case "dig":
+		return []string{"7", "0"}
+	case "cmp":
+		return []string{"<", ">", "!"}
+	case "ar":
+		return []string{"+", "%"}
+	}
+	return []string{ClassChar(c)}
 }
 
 // evClass renders an item type as the class string of the trace spec.
